@@ -25,6 +25,7 @@ PROP = "C02"
 M_T = tkit.M_T
 
 ARITH = [("+", "ADD_OP", "additive_expr"), ("-", "SUB_OP", "additive_expr"), ("*", "MUL_OP", "multiplicative_expr")]
+DIVMOD = [("/", "DIV_OP", "multiplicative_expr"), ("%", "MOD_OP", "multiplicative_expr")]   # family "div": used by C01
 BITW = [("&", "BIT_AND_OP", "and_expr"), ("^", "BIT_XOR_OP", "exclusive_or_expr"), ("|", "BIT_OR_OP", "inclusive_or_expr")]
 SHIFT = [("<<", "LEFT_OP", "shift_expr"), (">>", "RIGHT_OP", "shift_expr")]
 CMP = [("<", "LT_OP", "relational_expr"), (">", "GT_OP", "relational_expr"), ("<=", "LE_OP", "relational_expr"),
@@ -57,8 +58,8 @@ MUTANTS = [
      "old": "            a = self.promotion_cast(a)\n            b = self.promotion_cast(b)\n            a, b = self.cast_operands(a=a, b=b, immutable_a=False)\n        return self.add_op(ArithmeticOp(name, a, b, op_type))",
      "new": "            a = self.promotion_cast(a)\n            a, b = self.cast_operands(a=a, b=b, immutable_a=False)\n        return self.add_op(ArithmeticOp(name, a, b, op_type))"},
     {"name": "multiplicative_expr: operands converted to a's type instead of the common type", "file": "rzilcompiler/Transformer/RZILTransformer.py",
-     "old": "            a, b = self.cast_operands(a=a, b=b, immutable_a=False)\n        v = ArithmeticOp(name, a, b, op_type)",
-     "new": "            a, b = self.cast_operands(a=a, b=b, immutable_a=True)\n        v = ArithmeticOp(name, a, b, op_type)"},
+     "old": "        a, b = self.cast_operands(a=a, b=b, immutable_a=False)\n        v = ArithmeticOp(name, a, b, op_type)",
+     "new": "        a, b = self.cast_operands(a=a, b=b, immutable_a=True)\n        v = ArithmeticOp(name, a, b, op_type)"},
     {"name": "bit_operations: unary operand not promoted", "file": "rzilcompiler/Transformer/RZILTransformer.py",
      "old": "            a = self.promotion_cast(items[1])\n", "new": "            a = items[1]\n"},
     {"name": "unary_expr: - builds NOT", "file": "rzilcompiler/Transformer/RZILTransformer.py",
@@ -235,6 +236,8 @@ def gen_callbacks(loader, check, kind_pairs, replay_on=True, families=None, full
     binops = []
     if "arith" in families:
         binops += [(o, "arith") for o in ARITH]
+    if "div" in families:
+        binops += [(o, "div") for o in DIVMOD]
     if "bitw" in families:
         binops += [(o, "bitw") for o in BITW]
     if "shift" in families:
@@ -271,7 +274,7 @@ def gen_callbacks(loader, check, kind_pairs, replay_on=True, families=None, full
                             continue
                         a, b = p.state["a"], p.state["b"]
                         (xa, cta), (xb, ctb) = c_den(a), c_den(b)
-                        pre = [c11.shift_defined(op, cta, xb, ctb)] if fam == "shift" else None
+                        pre = [c11.shift_defined(op, cta, xb, ctb)] if fam == "shift" else ([c11.div_defined(op, xa, cta, xb, ctb)] if fam == "div" else None)
                         result_obligations(check, name, pi, p, p.value, c11.binop_type(op, cta, ctb),
                                            c11.binop_value(op, xa, cta, xb, ctb), rp, expect_bool=fam in ("cmp", "logic"), pre=pre)
     if "unary" in families:
